@@ -49,7 +49,7 @@ COMPONENTS = {
     "real": ["ExternalOptimizer.start/_handle_request", "_PluginOptimizer.run/_request/_callback", "_JSONPipeCommunicator", "EnsembleOptimizer", "SciPy plug-in + scipy.optimize in the child (45%)", "config dump -> JSON -> re-validation"],
     "stub": ["SimKernel (FIFOs, selector, process table, signals, clock, scheduler)", "sim/scripted optimizer in the child (55%)", "SimEvaluator"],
 }
-PROBES = ["evaluator_raised_with_dead_child", "real_backend_equal_within_rounding", "equality_compared", "kill_child", "kill_while_parent_evaluating", "child_raises", "child_exits_nonzero", "evaluator_raises",
+PROBES = ["kill_right_after_message", "evaluator_raised_with_dead_child", "real_backend_equal_within_rounding", "equality_compared", "kill_child", "kill_while_parent_evaluating", "child_raises", "child_exits_nonzero", "evaluator_raises",
           "evaluator_aborts", "max_functions", "stall", "spawn_fails", "small_pipe", "short_write", "large_message_runs",
           "messages_exchanged", "child_dead_checked", "real_scipy_child", "simulated_seconds"]
 REAL = ["slsqp", "l-bfgs-b", "cobyla", "nelder-mead", "differential_evolution"]
@@ -180,7 +180,13 @@ def execute(scn: dict) -> dict:
     fault = scn.get("fault")
     frng = random.Random(H(scn["kseed"], member))
     if fault is None and member > 0:
-        if 1 <= member <= 4:
+        child_writes = [n for (name, n) in kb.write_log if name == "child"]
+        if member in (2, 4) and child_writes:
+            # "killed after each possible number of exchanged messages": right after its k-th message left
+            kmsg = (scn["kseed"] // 7 + member) % len(child_writes)
+            at = child_writes[kmsg] + frng.randint(1, 3)
+            fault = {"kind": "kill_child", "at": at, "sig": frng.choice([9, 15, 15, 11]), "after_message": kmsg + 1}
+        elif 1 <= member <= 4:
             at = max(1, min(S, ((member - 1) * S) // 4 + frng.randrange(1, max(2, S // 4))))
             # killed from outside: SIGKILL (OOM killer), SIGTERM (batch scheduler, container stop), SIGSEGV
             fault = {"kind": "kill_child", "at": at, "sig": frng.choice([9, 15, 15, 11])}
@@ -218,6 +224,8 @@ def execute(scn: dict) -> dict:
         kind = fault["kind"]
         probe(kind)
         if kind == "kill_child":
+            if fault.get("after_message"):
+                probe("kill_right_after_message")
             kfaults.append({"kind": "kill_child", "at": fault["at"], "sig": fault.get("sig", 9)})
             child_fault = True
         elif kind == "child_raises":
